@@ -363,6 +363,15 @@ func buildTree(r *rng.Rng, parts []int, shape int) *mergeNode {
 	return &mergeNode{leaf: -1, left: buildTree(r, parts[:cut], shape), right: buildTree(r, parts[cut:], shape)}
 }
 
+// observeNoSum is the observation C02 compares: bins, zero weight, count, extremes, quantiles. The
+// exact sum of the exact-summary variant is not part of the mergeability statement (it is bounded
+// in C10; merging even an empty sketch may re-round its compensated sum in the last bit).
+func observeNoSum(s mon.Sketch, extraQ []float64) *mon.Obs {
+	o := mon.Observe(s, extraQ)
+	o.HasSum = false
+	return o
+}
+
 func runC02(c *core.Ctx) {
 	r := c.R
 	m := gen.RandMap(r, false)
@@ -373,7 +382,11 @@ func runC02(c *core.Ctx) {
 	k := r.Range(1, 8)
 	// single sketch
 	singleSpec := gen.RandPlainStore(r)
-	single := mon.NewSketch(false, m.M, singleSpec)
+	exact := r.P(0.3) // the variant with exact summary statistics is a mergeable sketch too
+	if exact {
+		c.Count("variant.exact", 1)
+	}
+	single := mon.NewSketch(exact, m.M, singleSpec)
 	type part struct {
 		s    mon.Sketch
 		spec gen.StoreSpec
@@ -390,13 +403,13 @@ func runC02(c *core.Ctx) {
 				c.Count("mapping.rebuilt_from_gamma", 1)
 			}
 		}
-		parts[i] = &part{s: mon.NewSketch(false, pm, sp), spec: sp}
+		parts[i] = &part{s: mon.NewSketch(exact, pm, sp), spec: sp}
 		// some parts are used and cleared before receiving their share
 		if r.P(0.15) {
 			for j := 0; j < r.Range(1, 20) && j < len(vs.vals); j++ {
-				parts[i].s.P.Add(vs.vals[r.Intn(len(vs.vals))])
+				parts[i].s.I().Add(vs.vals[r.Intn(len(vs.vals))])
 			}
-			parts[i].s.P.Clear()
+			parts[i].s.I().Clear()
 			c.Count("part.cleared_before_use", 1)
 		}
 	}
@@ -407,7 +420,7 @@ func runC02(c *core.Ctx) {
 		if math.Abs(v) <= m.Min {
 			hasZero = true
 		}
-		if err := single.P.Add(v); err != nil {
+		if err := single.I().Add(v); err != nil {
 			c.Failf("Add.rejected", "Add(%v) returned %v", v, err)
 			return
 		}
@@ -419,7 +432,7 @@ func runC02(c *core.Ctx) {
 		}
 		c.SigI(pi)
 		p := parts[pi]
-		if err := p.s.P.Add(v); err != nil {
+		if err := p.s.I().Add(v); err != nil {
 			c.Failf("Add.rejected", "Add(%v) returned %v", v, err)
 			return
 		}
@@ -465,11 +478,11 @@ func runC02(c *core.Ctx) {
 			return a
 		}
 		// merge b into a
-		before := mon.Observe(b.s, extraQ)
+		before := observeNoSum(b.s, extraQ)
 		var recvBefore *mon.Obs
 		bEmpty := b.n == 0
 		if bEmpty {
-			recvBefore = mon.Observe(a.s, extraQ)
+			recvBefore = observeNoSum(a.s, extraQ)
 			c.Count("merge.empty_argument", 1)
 		}
 		if a.spec.Kind != b.spec.Kind {
@@ -482,12 +495,12 @@ func runC02(c *core.Ctx) {
 			c.Count("merge.via_decode", 1)
 			var buf []byte
 			omit := r.Bool()
-			c.Guard("Encode", func() { b.s.P.Encode(&buf, omit) })
+			c.Guard("Encode", func() { b.s.I().Encode(&buf, omit) })
 			c.Logf("merge: %s part <- DecodeAndMergeWith(Encode(%s part), omitMapping=%v) (%d bytes)", a.spec, b.spec, omit, len(buf))
-			c.Guard("DecodeAndMergeWith", func() { err = a.s.P.DecodeAndMergeWith(buf) })
+			c.Guard("DecodeAndMergeWith", func() { err = a.s.I().DecodeAndMergeWith(buf) })
 		} else {
 			c.Logf("merge: %s part (n=%d) <- MergeWith(%s part (n=%d))", a.spec, a.n, b.spec, b.n)
-			c.Guard("MergeWith", func() { err = a.s.P.MergeWith(b.s.P) })
+			c.Guard("MergeWith", func() { err = a.s.MergeWith(b.s) })
 		}
 		if c.Failed() {
 			failed = true
@@ -500,13 +513,13 @@ func runC02(c *core.Ctx) {
 		}
 		a.n += b.n
 		c.Count("oracle.argument_unchanged", 1)
-		if d := before.Diff(mon.Observe(b.s, extraQ)); d != "" {
+		if d := before.Diff(observeNoSum(b.s, extraQ)); d != "" {
 			c.Failf("merge.argument_changed", "the argument of a merge changed: %s", d)
 			failed = true
 		}
 		merged = append(merged, argSnap{b, before})
 		if bEmpty {
-			if d := recvBefore.Diff(mon.Observe(a.s, extraQ)); d != "" {
+			if d := recvBefore.Diff(observeNoSum(a.s, extraQ)); d != "" {
 				c.Failf("merge.empty_not_noop", "merging an empty sketch changed the receiver: %s", d)
 				failed = true
 			}
@@ -520,18 +533,20 @@ func runC02(c *core.Ctx) {
 	// the receivers went on absorbing other parts: no earlier argument may have been affected (aliasing)
 	if r.Bool() {
 		v := vs.vals[r.Intn(len(vs.vals))] // a value of the input: stays within the stores' span budget
-		c.Guard("Add", func() { root.s.P.Add(v); single.P.Add(v) })
+		c.Guard("Add", func() { root.s.I().Add(v); single.I().Add(v) })
 	}
 	for _, a := range merged {
 		c.Count("oracle.argument_unchanged_later", 1)
-		if d := a.obs.Diff(mon.Observe(a.p.s, extraQ)); d != "" {
+		if d := a.obs.Diff(observeNoSum(a.p.s, extraQ)); d != "" {
 			c.Failf("merge.argument_changed_later", "a sketch that had been the argument of a merge changed when its receiver was used further: %s", d)
 			return
 		}
 	}
 	c.Count("oracle.merge_equalities", 1)
-	want := mon.Observe(single, extraQ)
-	got := mon.Observe(root.s, extraQ)
+	want := observeNoSum(single, extraQ)
+	got := observeNoSum(root.s, extraQ)
+	// the exact sum is accumulated in another order on the two paths (bounded in C10), not compared bitwise
+	want.HasSum, got.HasSum = false, false
 	if d := want.Diff(got); d != "" {
 		c.Failf("merge.differs_from_single", "merged sketch differs from the single sketch fed the whole input (single vs merged): %s", d)
 	}
